@@ -268,6 +268,8 @@ func (p *Pair) Close() {
 	// let the resets / FINs drain so protocol goroutines can exit
 	time.Sleep(2 * time.Millisecond)
 	p.W.Stop()
+	ReleaseStack(p.SA, p.TA)
+	ReleaseStack(p.SB, p.TB)
 }
 
 // TraceTail renders the last n wire events.
